@@ -52,6 +52,7 @@ def explore(tier, seed):
         # every other one coerces sibling fields one by one (an introspection field may then resolve late in its request)
         if si % 3 == 0: mdl["sdl_extra"].append("extend schema @nonIntrospectable")
         cfg = {"coerce_parent_concurrently": False, "parent_concurrently": False} if (si % 2 == 1 or si % 3 == 0) else None
+        if si % 4 == 1: cfg = {"coerce_list_concurrently": False, "list_concurrently": False}      # lists completed item by item
         # on every other schema the engines enrich their errors IN PLACE with a key specific to the error's message and path
         # (the documented use of an error coercer): what is written for one request's error belongs to that error only
         async def stamping(exception, error):
@@ -63,6 +64,7 @@ def explore(tier, seed):
         b = loop.run_until_complete(er.build_engine(mdl, renv, cfg=cfg, directives={"note": Note()}, engine_kwargs=ekw))
         fresh = loop.run_until_complete(er.build_engine(mdl, renv, cfg=cfg, directives={"note": Note()}, engine_kwargs=ekw))      # never sees concurrent traffic
         b.scribble = fresh.scribble = si % 2 == 0       # resolvers that modify their own arguments in place
+        b.share_values = True                           # the engine under traffic serves ONE data object per resolver to all requests
         pool = []
         for _ in range(8):
             dg = DocGen(sg, rng, op_kinds=("query", "mutation") if sg.mutation else ("query",))
